@@ -580,6 +580,14 @@ theorem change_inv (s s' : State α) (cMin cMax : α) (b? : Option Nat) (r : Boo
     · subst hs'
       exact ⟨⟨a1, a2, a3, a4, zeros_length _, zeros_nonneg _⟩, b1, b2, b3, b4, b5⟩
 
+/-- the code as it is: `changeSizeClasses(cMin, cMax, bins, resetPSD=True)` discards the requested grid —
+`reset()` is called with `resetBounds=True` — and restores the ORIGINAL grid with an empty
+distribution (consistent, hence harmless for this property; reported as an observation). -/
+theorem change_resetPSD_restores_original (s : State α) (cMin cMax : α) (b? : Option Nat) :
+    ∃ s', change s cMin cMax b? true = some s' ∧ s'.min = s.origMin ∧ s'.max = s.origMax ∧
+      s'.bins = s.origBins ∧ s'.bounds = linspace s.origMin s.origMax s.origBins ∧ s'.psd = zeros s.origBins :=
+  ⟨reset (retarget s cMin cMax b?) true, by simp only [change, if_true], rfl, rfl, rfl, rfl, rfl⟩
+
 /-- **re-mesh volume**: after `changeSizeClasses(.., resetPSD=False)` the third moment equals the
 old one **iff** the interpolated distribution has a non-zero third moment (`newV ≠ 0`) or there was
 no volume to begin with. -/
